@@ -95,11 +95,6 @@ func (h *longHist) monitoredCleaner(cs cleanerSpec, inner bigbuff.Cleaner) bigbu
 		if got != want {
 			h.anomaly("retention", "cleaner-result", "cleaner %s returned %d for size=%d offsets=%v, reference says %d", cs, got, size, cp, want)
 		}
-		for i := range cp {
-			if i < len(offsets) && offsets[i] != cp[i] {
-				h.anomaly("retention", "cleaner-mutated-offsets", "cleaner modified its offsets argument")
-			}
-		}
 		if !cs.Fixed {
 			// default cleaner: never ask to evict beyond the smallest non-negative committed offset
 			for _, o := range cp {
@@ -403,14 +398,16 @@ func (h *longHist) runSession(c *core.Ctx, b *bigbuff.Buffer, r *rand.Rand, cl i
 			if err != nil {
 				_, past := errClass(err)
 				switch {
-				case past:
+				case past || (!cancelled && (h.opts.cs.Fixed || h.opts.custom != "")):
+					// fallen behind a forced trim (recognised by the message, or - under a non-default cleaner - by
+					// any error that is not this Get's own cancellation)
 					if s.pastErrAt < 0 {
 						s.pastErrAt = pos
 					}
 					dead = true
 				case cancelled:
 				default:
-					h.anomaly("progress", "get-error", "Get returned an unexpected error: %v", err)
+					h.anomaly("retention", "get-error", "a consumer that only reads and commits got an error under the default cleaner: %v", err)
 				}
 				continue
 			}
